@@ -5,7 +5,7 @@
    so every theorem below holds for EVERY iteration order CPython may choose. *)
 From Coq Require Import ZArith List String Bool Permutation.
 From Model Require Import PyBase Graph Morgan Compose RxnSmiles CgrMorgan.
-From Proofs Require Import ComposeProofs RxnComposeProofs RxnSmilesProofs RxnCxProofs CgrMorganProofs.
+From Proofs Require Import ComposeProofs RxnComposeProofs RxnSmilesProofs RxnCxProofs RxnEqProofs CgrMorganProofs.
 Import ListNotations.
 Open Scope Z_scope.
 
@@ -329,6 +329,41 @@ Theorem C15_rxn_roundtrip_example :
     Ok (Some (["CCO"%string; "[CH3]"%string; "[Na+].[Cl-]"%string], [], ["CCO"%string]), [3]).
 Proof. exact rxn_roundtrip_example. Qed.
 Print Assumptions C15_rxn_roundtrip_example.
+
+(* ---- ReactionContainer.__eq__ / __hash__ ---- *)
+(* rxn_eq a b is str(a) == str(b); rxn_hash sh a is hash(str(a)) with sh the (seed dependent, opaque) hash of a str:
+   every statement holds for ANY sh *)
+Theorem C15_rxn_eq_hash_coherent : forall sh a b, rxn_eq a b = true -> rxn_hash sh a = rxn_hash sh b.
+Proof. exact rxn_eq_hash_coherent. Qed.
+Print Assumptions C15_rxn_eq_hash_coherent.
+
+Theorem C15_rxn_eq_equivalence :
+  (forall a, rxn_eq a a = true) /\ (forall a b, rxn_eq a b = rxn_eq b a) /\
+  (forall a b c, rxn_eq a b = true -> rxn_eq b c = true -> rxn_eq a c = true).
+Proof. exact rxn_eq_equivalence. Qed.
+Print Assumptions C15_rxn_eq_equivalence.
+
+(* the same molecules in any order within each role: the same string, equal, and the same hash *)
+Theorem C15_rxn_eq_hash_role_order_free : forall sh a b, same_roles a b -> rxn_ncomp_det a ->
+  rxn_str a = rxn_str b /\ rxn_eq a b = true /\ rxn_hash sh a = rxn_hash sh b.
+Proof. exact rxn_eq_hash_role_order_free. Qed.
+Print Assumptions C15_rxn_eq_hash_role_order_free.
+
+(* == is not too coarse: equal reactions have, role by role, the same molecule strings (in canonical order) and the same
+   radical positions (through the string-level round trip).  rxn_ok: fmol_ok, no white space, at most one atom per character
+   of a molecule SMILES, at least one molecule *)
+Theorem C15_rxn_eq_sound : forall a b, rxn_ok a -> rxn_ok b -> rxn_eq a b = true ->
+  canon_roles a = canon_roles b /\ canon_radicals a = canon_radicals b.
+Proof. exact rxn_eq_sound. Qed.
+Print Assumptions C15_rxn_eq_sound.
+
+Theorem C15_rxn_eq_example :
+  let a := mkF "CCO" 1 [false; false; false] in let c := mkF "[CH3]" 1 [true] in let c' := mkF "[CH3]" 1 [false] in
+  rxn_ok ([a; nacl; c], [], [a]) /\ same_roles ([a; nacl; c], [], [a]) ([c; a; nacl], [], [a]) /\
+  rxn_eq ([a; nacl; c], [], [a]) ([c; a; nacl], [], [a]) = true /\
+  rxn_eq ([a; nacl; c], [], [a]) ([a; nacl; c'], [], [a]) = false.
+Proof. exact rxn_eq_example. Qed.
+Print Assumptions C15_rxn_eq_example.
 
 (* ---- CGR SMILES tokens (finite, complete sweeps) ---- *)
 (* the bond token shows '>' exactly for a dynamic bond and determines (order, p_order) *)
